@@ -86,6 +86,28 @@ void buildSeeds(bool thorough)
 				gConstructed[0].push_back(m);
 			}
 		}
+	// valid empty images (height 0, no pixel bytes) of every depth and a few widths: follow-ups must cope with zero rows
+	for (int d : { 1, 4, 8 }) for (int64_t w : { int64_t(0), int64_t(1), int64_t(5), int64_t(32), int64_t(33) }) {
+		ref::RBmp b; b.depth = d; b.width = int32_t(w); b.height = 0;
+		for (int i = 0; i < (1 << d); ++i) b.palette.push_back({ uint8_t(i), 1, 2, 3 });
+		mc::Mutant m; m.bytes = ref::encodeBmp(b);
+		m.desc = "constructed bmp depth " + std::to_string(d) + " width " + std::to_string(w) + " height 0 (valid empty image)";
+		gConstructed[0].push_back(m);
+		if (d == 8 && w == 32) gConstructed[1].push_back(m);
+	}
+	// bitmap headers whose row bit count width*depth is >= 2^32: with a pitch computed in 32 bits the few pixel bytes present match
+	for (int d : { 4, 8 }) for (uint64_t k : { uint64_t(1), uint64_t(3) }) for (int64_t j : { int64_t(0), int64_t(1), int64_t(5), int64_t(9) }) for (int64_t h : { int64_t(1), int64_t(2), int64_t(-2), int64_t(0) }) {
+		int64_t w = int64_t((k << 32) / uint64_t(d)) + j; if (w > INT32_MAX) continue;
+		uint32_t bits32 = uint32_t(uint64_t(w) * uint64_t(d));
+		uint64_t pitch32 = ((uint64_t(bits32) + 7) / 8 + 3) & ~uint64_t(3);
+		uint64_t s = pitch32 * uint64_t(h < 0 ? -h : h);
+		ref::RBmp b; b.depth = d; b.width = int32_t(w); b.height = int32_t(h);
+		for (int i = 0; i < (1 << d); ++i) b.palette.push_back({ uint8_t(i), 1, 2, 3 });
+		b.rows.assign(std::size_t(s), 0x5A);
+		mc::Mutant m; m.bytes = ref::encodeBmp(b);
+		m.desc = "constructed bmp depth " + std::to_string(d) + " width " + std::to_string(w) + " height " + std::to_string(h) + " pixel bytes " + std::to_string(s) + " (row bits width*depth taken modulo 2^32)";
+		gConstructed[0].push_back(m);
+	}
 	// bitmap headers whose size cross-check holds modulo 2^32 (but not in 64 bits): pitch = 2^p, height = 2^(32-p) + j
 	for (int d : { 1, 4, 8 }) for (int64_t w : { int64_t(1), int64_t(8), int64_t(32), int64_t(64), int64_t(256), int64_t(65536), int64_t(1) << 20, int64_t(1) << 28 }) {
 		uint64_t pitch = ((uint64_t(w) * uint64_t(d) + 7) / 8 + 3) & ~uint64_t(3);
@@ -103,6 +125,13 @@ void buildSeeds(bool thorough)
 			gConstructed[0].push_back(m);
 			if (d == 8 && w == 32) gConstructed[1].push_back(m);     // also through the tileset loader (32 wide, 8 bit, height multiple of 32 for j = 0, 32)
 		}
+	}
+	{
+		// a valid custom tileset without rows
+		ref::RPicture p0; p0.height = 0; for (int i = 0; i < 256; ++i) p0.palette.push_back({ uint8_t(i), 2, 3, 0 });
+		mc::Mutant m; m.bytes = ref::encodeCustomTileset(p0);
+		m.desc = "constructed custom tileset of height 0 (valid, no rows)";
+		gConstructed[1].push_back(m);
 	}
 	{
 		// tileset heights >= 2^31 and other extremes in the custom header
@@ -192,7 +221,7 @@ void usePrt(Ctx& ctx, const ArtFile& a, const std::string& desc, const std::stri
 	for (std::size_t i = 0; i < n && i < 6; ++i) idx.insert(i);
 	if (n) idx.insert(n - 1);
 	for (auto pf : pixelFiles) for (auto i : idx) {
-		if (i < n && a.imageMetas[i].scanLineByteWidth == 0 && a.imageMetas[i].height > 1000000) { ctx.count("followup/degenerate-giant-height-row-loops-skipped"); continue; }   // 2^30 empty rows: terminates, but in minutes
+		if (i < n && a.imageMetas[i].scanLineByteWidth == 0 && a.imageMetas[i].height > 1000000 && a.imageMetas[i].height <= 0x7FFFFFFFu) { ctx.count("followup/degenerate-giant-height-row-loops-skipped"); continue; }   // 2^30 empty rows: terminates, but in minutes
 		ctx.sub(desc + " :: then ExtractImage(" + (i == SIZE_MAX ? std::string("SIZE_MAX") : std::to_string(i)) + ") against " + pf + " (" + std::to_string(n) + " images)");
 		auto o = mc::guarded([&] { SpriteLoader sl(dir + "/" + pf, shared); sl.ExtractImage(i, dir + "/sprite.bmp"); });
 		ctx.transition();
